@@ -36,6 +36,12 @@ def handle (ws : List String) : String :=
       let r := withGlobalTx n b cb script cancel
       s!"reqs={",".intercalate (r.1.map showReq)} ret={showRet r.2}"
     | _, _, _, _, _ => "bad-op"
+  -- `rollback <rc 0|1> <status>`: GlobalTransactionManager.Rollback called directly, its one request answered
+  | ["rollback", rc, st] =>
+    match rc.toNat?, st.toNat? with
+    | some 0, some st => s!"ret={if rollbackAcknowledged .failed st then "nil" else "error"}"
+    | some 1, some st => s!"ret={if rollbackAcknowledged .success st then "nil" else "error"}"
+    | _, _ => "bad-op"
   | _ => "bad-op"
 
 end Seata.Driver.C04
